@@ -13,13 +13,14 @@
 (*   cmd    c=sched|cancel|step|step_until|process ...                     *)
 (*                              DSchedule / DCancel / DStep / DStepUntil / *)
 (*                              DProcess with the logged arguments         *)
-(*   begin  m prog from t       HBegin(m, from), Head message has program  *)
-(*                              prog and the handler saw time t = now      *)
+(*   begin  m prog from t       HStart(m): the message taken has program   *)
+(*                              prog, sender from; the handler saw t = now *)
 (*   op     m out               HOp(m, out)                                *)
 (*   ret    res t               DReturn with result = res and now = t      *)
 (*   end                        the run is over; the simulation is idle    *)
-(* Unlogged (silent) actions, inferred by TLC: Pull, SkipSameSync, HSkip,  *)
-(* Quiesce, Abort.                                                         *)
+(* Unlogged (silent) actions, inferred by TLC: Pull, SkipSameSync, HTake,  *)
+(* HSkip, Quiesce, Abort (and DoSync when the reset event says that        *)
+(* synchronize calls were projected away).                                 *)
 (*                                                                         *)
 (* Wildcards: every event carries a list `wild` of field names that are not *)
 (* compared (used by the per-property projections of the checks, see       *)
@@ -32,9 +33,10 @@ Rec == ndJsonDeserialize(IOEnv.TRACE)
 VARIABLES
     l,       \* index of the next event to consume
     boot,    \* "sync" (waiting for the init synchronisation), "init", "done"
-    inited   \* models whose init was logged
+    inited,  \* models whose init was logged
+    syncSilent \* TRUE: synchronize calls are not in the trace (projection for properties other than C18)
 
-tvars == <<vars, l, boot, inited>>
+tvars == <<vars, l, boot, inited, syncSilent>>
 
 Ev == Rec[l]
 
@@ -49,6 +51,7 @@ TraceInit ==
     /\ l = 1
     /\ boot = "reset"
     /\ inited = {}
+    /\ syncSilent = FALSE
     /\ TLCSet(1, 0)
 
 (* The fields of the state that Init constrains, re-initialised. *)
@@ -64,6 +67,7 @@ Reset ==
     /\ synced' = <<0>> /\ fired' = <<>> /\ sched' = {} /\ cancelPos' = <<>>
     /\ termAt' = NotTerminated
     /\ boot' = "sync" /\ inited' = {}
+    /\ syncSilent' = Ev.ss
 
 (* SimInit::init synchronises on the start time before any init code runs. *)
 InitSync ==
@@ -71,7 +75,7 @@ InitSync ==
     /\ boot = "sync"
     /\ Ev.t = 0
     /\ boot' = "init"
-    /\ UNCHANGED <<vars, inited>>
+    /\ UNCHANGED <<vars, inited, syncSilent>>
 
 ModelInit ==
     /\ IsEvent("init")
@@ -79,7 +83,7 @@ ModelInit ==
     /\ Ev.m \in Models \ inited
     /\ inited' = inited \cup {Ev.m}
     /\ boot' = IF inited' = Models THEN "done" ELSE "init"
-    /\ UNCHANGED vars
+    /\ UNCHANGED <<vars, syncSilent>>
 
 Booted == boot = "done"
 
@@ -91,30 +95,32 @@ TCmd ==
          [] Ev.c = "step"   -> DStep
          [] Ev.c = "step_until" -> DStepUntil(Ev.abs, Ev.d)
          [] Ev.c = "process" -> DProcess(Ev.kind, Ev.target, Ev.prog)
-    /\ UNCHANGED <<boot, inited>>
+    /\ UNCHANGED <<boot, inited, syncSilent>>
 
 TSync ==
     /\ IsEvent("sync")
     /\ Booted
     /\ Wild("t") \/ Ev.t = now
     /\ DoSync(Ev.lag)
-    /\ UNCHANGED <<boot, inited>>
+    /\ UNCHANGED <<boot, inited, syncSilent>>
 
 TBegin ==
     /\ IsEvent("begin")
     /\ Booted
     /\ Ev.m \in Models /\ Ev.from \in Senders
-    /\ HBegin(Ev.m, Ev.from)
-    /\ Head(mbox[Ev.m][Ev.from]).prog = Ev.prog
+    /\ \/ /\ HStart(Ev.m)
+          /\ running[Ev.m].prog = Ev.prog /\ running[Ev.m].from = Ev.from
+       \/ /\ HTakeStart(Ev.m, Ev.from)
+          /\ Head(mbox[Ev.m][Ev.from]).prog = Ev.prog
     /\ Wild("t") \/ Ev.t = now
-    /\ UNCHANGED <<boot, inited>>
+    /\ UNCHANGED <<boot, inited, syncSilent>>
 
 TOp ==
     /\ IsEvent("op")
     /\ Booted
     /\ Ev.m \in Models
     /\ HOp(Ev.m, Ev.out)
-    /\ UNCHANGED <<boot, inited>>
+    /\ UNCHANGED <<boot, inited, syncSilent>>
 
 ResMatches(logged, res) ==
     \/ Wild("res")
@@ -129,22 +135,31 @@ TRet ==
     /\ DReturn
     /\ ResMatches(Ev.res, result)
     /\ Wild("t") \/ Ev.t = now
-    /\ UNCHANGED <<boot, inited>>
+    /\ UNCHANGED <<boot, inited, syncSilent>>
 
 TEnd ==
     /\ IsEvent("end")
     /\ Booted /\ phase = "idle"
     /\ boot' = "ended"
-    /\ UNCHANGED <<vars, inited>>
+    /\ UNCHANGED <<vars, inited, syncSilent>>
 
 Silent ==
     /\ Booted
     /\ \/ Pull
-       \/ SkipSameSync
+       \* (when synchronize calls are projected away the redundant call of
+       \* step_until(now) is unobservable: always take it, to keep the search linear)
+       \/ ~syncSilent /\ SkipSameSync
        \/ \E m \in Models, s \in Senders : HSkip(m, s)
+       \* the moment a message is taken is only observable for keyed events
+       \* (it is where the key is re-read); other takes are fused with the
+       \* logged start of the handler, which keeps the search linear
+       \/ \E m \in Models, s \in Senders :
+             /\ mbox[m][s] # <<>> /\ Head(mbox[m][s]).key # 0
+             /\ HTake(m, s)
+       \/ syncSilent /\ DoSync(0)
        \/ Quiesce
        \/ \E e \in pendErr : Abort(e)
-    /\ UNCHANGED <<l, boot, inited>>
+    /\ UNCHANGED <<l, boot, inited, syncSilent>>
 
 TraceNext == Reset \/ InitSync \/ ModelInit \/ TCmd \/ TSync \/ TBegin \/ TOp \/ TRet \/ TEnd \/ Silent
 
